@@ -372,9 +372,10 @@ Definition copies_part (b : name) (files : list path) : list effect :=
   [Mkdir (backup_dir b); Mkdir (backup_root b)] ++ flat_map (copy_effects b) files.
 
 (* BackupManager.create_backup; backup_name=None is resolved by the caller.
-   [fixed = true] is the code after the fix: commit for C18-F1 (the name is also
+   [fixed = true] is the CURRENT code of /repo, i.e. after fix commit fb42f68 (C18-F1; the name is also
    refused when backups/<name> exists on disk, whatever the cached dictionary
-   says); [fixed = false] is the code before it, kept as the record of the defect. *)
+   says); [fixed = false] is the behaviour BEFORE fix commit fb42f68, kept only as the record of
+   the repaired defect.  Every theorem about "the code" is stated for [create_backup true]. *)
 Definition create_backup (fixed : bool) (m : mgr) (f : fs) (files : list path) (b : name) (ts : str)
   : fs * mgr * res bool :=
   match mgr_get m b with
